@@ -980,4 +980,120 @@ example : (T.trackT Gen.Sem.track { cap := 1, workers := 1, ncids := 1 } init { 
 example : T.recoverT Gen.Sem.recover { cap := 1, workers := 1, ncids := 1 } erroredPinState 0
     = some (recover { cap := 1, workers := 1, ncids := 1 } erroredPinState 0) := gen_table_recover _ _ _
 
+/-! ### round 8c, direction 2: OTHER overlaps than Recover × Untrack — `Track` overlapping `Recover` / `RecoverAll`, and `StatusAll`
+    (pinset read, then `PinLs`, then the operation table) overlapping a worker's completion. Harmless, with proofs; the one way an
+    overlapping Track IS undone for a while (stale unpin_error) ends in an error status and is repaired by the next round. -/
+
+/-- a switch acting on a STALE status that calls for a pin re-issues the pin the pinset records NOW (the pin is read at switch time) -/
+theorem stale_pin_switch_uses_current_pin (cfg : Cfg) (s : State) (c : Nat) (p : PinSpec) (st : Status)
+    (hs : s.shared c = some p) (ha : recAction st = some .pin) : recoverWith cfg s c st = enqueue cfg s p .pin := by
+  cases st <;> simp [recAction] at ha <;> simp [recoverWith, recPin, hs]
+
+theorem trackNew_again (s : State) (p : PinSpec) (typ : OpType) :
+    trackNew (trackNew s p typ .queued).1 p typ .queued = ((trackNew s p typ .queued).1, none) := by
+  unfold trackNew
+  cases h : s.cur p.cid with
+  | none => simp [newOp, upd]
+  | some i =>
+    by_cases hg : (s.ops i).typ = typ ∧ (s.ops i).phase ≠ .error ∧ (s.ops i).phase ≠ .done
+    · simp [hg, h]
+    · simp [hg, newOp, cancelOp, upd]
+
+/-- `Track(p)` (allocated here) overlapping a `Recover` / `RecoverAll` whose status read came first: while the Track has done its
+    `TrackNewOperation` (even before its channel send), the stale switch — any status that calls for a pin — changes NOTHING: it is
+    deduplicated against the Track's operation, no second operation, no second send. For every configuration and state of the interleaved system. -/
+theorem track_overlapping_recover_harmless (cfg : Cfg) (t : StateC) (p : PinSpec) (k : Nat) (st : Status)
+    (hk : p.kind = .here) (hr : (stepC cfg t (.trackBegin p)).reads[k]? = some (p.cid, st)) (ha : recAction st = some .pin) :
+    (stepC cfg (stepC cfg t (.trackBegin p)) (.recSwitch k)).s = (stepC cfg t (.trackBegin p)).s ∧
+    (stepC cfg (stepC cfg t (.trackBegin p)) (.recSwitch k)).sends = (stepC cfg t (.trackBegin p)).sends := by
+  have hsh : (stepC cfg t (.trackBegin p)).s =
+      (trackNew { t.s with shared := upd t.s.shared p.cid (some p), failed := upd t.s.failed p.cid false } p .pin .queued).1 := by
+    simp only [stepC, hk, if_true, pushSend, enqBegin]
+    split <;> rfl
+  have hrec : recPin (stepC cfg t (.trackBegin p)).s p.cid = p := by
+    rw [hsh]; simp [recPin, trackNew_shared, upd]
+  have hdup : enqBegin (stepC cfg t (.trackBegin p)).s p .pin = ((stepC cfg t (.trackBegin p)).s, none) := by
+    rw [hsh]; exact trackNew_again _ p .pin
+  generalize stepC cfg t (.trackBegin p) = t' at *
+  simp [stepC, hr, ha, hrec, hdup, pushSend]
+
+theorem enqueue_pin_again (cfg : Cfg) (s : State) (p : PinSpec) (hn : (enqueue cfg s p .pin).2 = .nil) :
+    enqueue cfg (enqueue cfg s p .pin).1 p .pin = ((enqueue cfg s p .pin).1, .nil) := by
+  have h2 := trackNew_again s p .pin
+  unfold enqueue at hn ⊢
+  rcases h : trackNew s p .pin .queued with ⟨s1, o⟩
+  rw [h] at hn h2
+  cases o with
+  | none => simp only [] at h2 ⊢; simp [h2]
+  | some i =>
+    simp only [] at hn h2 ⊢
+    by_cases hq : s1.pinQ.length < cfg.cap
+    · simp only [hq, if_true] at hn ⊢
+      have h3 : trackNew { s1 with pinQ := s1.pinQ ++ [i] } p .pin .queued = ({ s1 with pinQ := s1.pinQ ++ [i] }, none) := by
+        have := h2
+        unfold trackNew at this ⊢
+        revert this
+        cases s1.cur p.cid with
+        | none => simp [newOp]
+        | some j =>
+          by_cases hg : (s1.ops j).typ = .pin ∧ (s1.ops j).phase ≠ .error ∧ (s1.ops j).phase ≠ .done
+          · simp [hg]
+          · simp [hg, newOp, cancelOp]
+      simp [h3]
+    · simp [hq] at hn
+
+/-- the base-model reading: right after a `Track(p)` that returned nil, a switch on a stale pin-calling status is a no-op -/
+theorem stale_pin_switch_after_track_noop (cfg : Cfg) (s0 : State) (p : PinSpec) (st : Status)
+    (hk : p.kind = .here) (hn : (track cfg s0 p).2 = .nil) (ha : recAction st = some .pin) :
+    recoverWith cfg (track cfg s0 p).1 p.cid st = ((track cfg s0 p).1, .nil) := by
+  have hs : (track cfg s0 p).1.shared p.cid = some p := by
+    rw [track_shared]; simp [upd]
+  rw [stale_pin_switch_uses_current_pin cfg _ _ p st hs ha]
+  have ht : track cfg s0 p = enqueue cfg { s0 with shared := upd s0.shared p.cid (some p), failed := upd s0.failed p.cid false } p .pin := by
+    simp [track, hk]
+  rw [ht] at hn ⊢
+  exact enqueue_pin_again cfg _ p hn
+
+example : (stepC k06Cfg { initC with reads := [(0, .unexpectedlyUnpinned)] } (.trackBegin (k06Pin .direct))).reads[0]?
+    = some ((k06Pin .direct).cid, .unexpectedlyUnpinned) := by decide
+
+/-- the overlap that DOES undo a Track for a while: `Recover(c)` reads unpin_error (a failed Untrack), `Track(c)` runs to completion (the
+    daemon pins c), then the switch acts on the stale unpin_error and un-pins c again. The end is quiescent with the pinset holding c
+    and the daemon not — but `Status` = pin_error (an error status: the first sentence holds), and the next recover round re-pins c. -/
+theorem stale_unpin_switch_after_track_is_error_status_and_heals :
+    let t := runC k06Cfg initC [.untrackBegin 0, .send 0, .base .deqUnpin, .base (.retErr 0), .recRead 0,
+      .trackBegin (k06Pin .direct), .send 0, .base .deqPin, .base (.effect 1), .base (.retOk 1),
+      .recSwitch 0, .send 0, .base .deqUnpin, .base (.effect 2), .base (.retOk 2)]
+    let s2 := run k06Cfg t.s [.recover 0, .deqPin, .effect 3, .retOk 3]
+    t.sends = [] ∧ t.reads = [] ∧ quiescent 1 (observe t.s) = true ∧ t.s.shared 0 = some (k06Pin .direct) ∧ t.s.daemon 0 = none ∧
+    statusOf t.s 0 = .pinError ∧ matchOrError (observe t.s) 0 = true ∧
+    quiescent 1 (observe s2) = true ∧ s2.daemon 0 = some (.direct, 1) ∧ daemonMatches (observe s2) 0 = true := by
+  decide
+
+/-- `StatusAll` is three reads: the pinset and the daemon's pins (`localStatus`) first, the operation table (`GetAll`) last. A listing
+    torn between states `s1` (pinset, daemon) and `s2` (table): -/
+def tornListing (s1 s2 : State) (c : Nat) : Option Status :=
+  match s2.cur c with
+  | some i => some (opStatus (s2.ops i))
+  | none => statusAllOf { s1 with cur := fun _ => none } c
+
+/-- a worker completing a pin between the two reads makes the listing say unexpectedly_unpinned for a cid that is pinned (neither state
+    lists that); a `RecoverAll` on the torn listing re-pins the RECORDED pin: quiescent again, the daemon matches, status pinned. -/
+theorem torn_statusAll_repin_harmless :
+    let s1 := run k06Cfg init [.track (k06Pin .direct), .deqPin]
+    let s2 := run k06Cfg s1 [.effect 0, .retOk 0]
+    let s3 := run k06Cfg (raLoop k06Cfg (tornListing s1 s2) s2 [([], 0)]).1 [.deqPin, .effect 1, .retOk 1]
+    statusAllOf s1 0 = some .pinning ∧ statusAllOf s2 0 = some .pinned ∧ tornListing s1 s2 0 = some .unexpectedlyUnpinned ∧
+    quiescent 1 (observe s3) = true ∧ s3.daemon 0 = some (.direct, 1) ∧ statusOf s3 0 = .pinned ∧ daemonMatches (observe s3) 0 = true := by
+  decide
+
+/-- ... and for ALL states: whatever a torn (or otherwise stale) listing says about a cid the pinset records as `p`, if it calls for a
+    pin the loop's entry is `enqueue(p, pin)` — the same instruction a `Track(p)` issues; its effect on the daemon is `p`'s mode. -/
+theorem torn_listing_entry_is_track (cfg : Cfg) (s1 s2 : State) (c : Nat) (p : PinSpec) (st : Status)
+    (hl : tornListing s1 s2 c = some st) (hs : s2.shared c = some p) (ha : recAction st = some .pin) :
+    raLoop cfg (tornListing s1 s2) s2 [([], c)] = enqueue cfg s2 p .pin := by
+  simp only [raLoop, run, List.foldl, hl, stale_pin_switch_uses_current_pin cfg s2 c p st hs ha]
+  rcases h : enqueue cfg s2 p .pin with ⟨a, b⟩
+  cases b <;> simp
+
 end CV.C05
